@@ -102,3 +102,21 @@ unsigned zv_map_hash(unsigned sizeLog, unsigned key) {
     COVER_map_t map; memset(&map, 0, sizeof map); map.sizeLog = sizeLog;
     return COVER_map_hash(&map, key);
 }
+
+/* round 3: the real COVER_map_* functions driven the way COVER_selectSegment drives them.
+ * ops[i] > 0: one more occurrence of key keys[i] (COVER_map_at, += 1); ops[i] == 0: one occurrence less (COVER_map_at, -= 1,
+ * COVER_map_remove when the counter reaches 0).  vals[i] = the counter after the update.  The whole table is copied out
+ * (key, value per slot).  returns the number of slots, -1 when COVER_map_init fails. */
+int zv_map_ops(unsigned size, const unsigned* keys, const int* ops, int n, unsigned* vals, unsigned* table, unsigned tableCap) {
+    COVER_map_t map; int i; unsigned s;
+    if (!COVER_map_init(&map, size)) return -1;
+    for (i = 0; i < n; i++) {
+        U32* occ = COVER_map_at(&map, keys[i]);
+        if (ops[i]) { *occ += 1; vals[i] = *occ; }
+        else { *occ -= 1; vals[i] = *occ; if (*occ == 0) COVER_map_remove(&map, keys[i]); }
+    }
+    for (s = 0; s < map.size && 2 * s + 1 < tableCap; s++) { table[2 * s] = map.data[s].key; table[2 * s + 1] = map.data[s].value; }
+    s = map.size;
+    COVER_map_destroy(&map);
+    return (int)s;
+}
